@@ -89,6 +89,10 @@ def check_sets(world, pipe, res, balanced_consumers=()):
                 continue
             e, st = c[0]
             pubs = pubidx.by_node_tok.get((e['pub'], st, tokkey(tok)), [])
+            if not pubs:
+                other = sorted({t2 for (n2, t2, k2) in pubidx.by_node_tok if n2 == e['pub'] and k2 == tokkey(tok) and t2 != st})
+                if other:
+                    out.append(('wrong-topic-name', f'{cons}: frame delivered as {dst!r} (subscription maps {st!r} -> {dst!r}) was published by {e["pub"]} under {other}, not under {st!r} (set {brief(ins)})'))
             per_edge[id(e)][dst] = (st, tok, pubs, e)
         if unknown:
             out.append(('unmapped-frame', f'{cons} got topics {unknown} that no source published with that payload (set {brief(ins)})'))
